@@ -7,6 +7,8 @@
 //@harness name=weights_new_len0 tier=quick label=proved props=C19
 //@harness name=weights_average tier=quick label=bounded(n<=4) props=C19
 //@harness name=iw_new_shapes tier=quick label=bounded(2x3) props=C19,C20
+//@harness name=iw_rejected_update_keeps_weights tier=quick label=bounded(2-voices,2-streams,len-1-and-3) props=C19 timeout=600
+//@harness name=iw_accepted_update_only_that_vector tier=quick label=bounded(2-voices,2-streams) props=C19 timeout=600
 use super::*;
 
 fn check_new(w: &[f64], sum: f64) {
@@ -80,4 +82,52 @@ fn iw_new_shapes() {
     assert!(iw.get_gv(s).len() == 2 && iw.get_gv(s)[0] == 0.5);
     assert!(iw.get_duration().len() == 2);
     kani::cover!(true);
+}
+
+fn bits_eq(a: &[f64], b: &[f64]) -> bool {
+    a.len() == b.len() && (a.len() < 1 || a[0].to_bits() == b[0].to_bits()) && (a.len() < 2 || a[1].to_bits() == b[1].to_bits())
+}
+
+/// paired (API-level, refactoring-robust) form of the Verus contract of unit `weights`:
+/// an update with the wrong number of weights is rejected whatever its values (even if they sum to 1)
+/// and every previously effective weight vector stays in force
+#[kani::proof]
+#[kani::unwind(6)]
+fn iw_rejected_update_keeps_weights() {
+    let mut iw = InterporationWeight::new(2, 2);
+    assert!(iw.set_duration(&[0.75, 0.25]).is_ok());
+    assert!(iw.set_parameter(1, &[0.25, 0.75]).is_ok());
+    assert!(iw.set_gv(0, &[1.0, 0.0]).is_ok());
+    let w3: [f64; 3] = kani::any();
+    let w1: [f64; 1] = kani::any();
+    let which: u8 = kani::any();
+    let long: bool = kani::any();
+    let w: &[f64] = if long { &w3 } else { &w1 };
+    let r = match which { 0 => iw.set_duration(w), 1 => iw.set_parameter(1, w), 2 => iw.set_parameter(0, w), 3 => iw.set_gv(0, w), _ => iw.set_gv(1, w) };
+    assert!(r.is_err());
+    assert!(bits_eq(iw.get_duration(), &[0.75, 0.25]));
+    assert!(bits_eq(iw.get_parameter(1), &[0.25, 0.75]));
+    assert!(bits_eq(iw.get_parameter(0), &[0.5, 0.5]));
+    assert!(bits_eq(iw.get_gv(0), &[1.0, 0.0]));
+    assert!(bits_eq(iw.get_gv(1), &[0.5, 0.5]));
+    kani::cover!(long && which == 3);
+}
+
+/// an accepted update replaces exactly the addressed vector
+#[kani::proof]
+#[kani::unwind(6)]
+fn iw_accepted_update_only_that_vector() {
+    let mut iw = InterporationWeight::new(2, 2);
+    let w: [f64; 2] = kani::any();
+    let which: u8 = kani::any();
+    kani::assume(which < 3);
+    let r = match which { 0 => iw.set_duration(&w), 1 => iw.set_parameter(1, &w), _ => iw.set_gv(0, &w) };
+    let ok = (w[0] + w[1] - 1.0).abs() <= f64::EPSILON;
+    assert!(r.is_ok() == ok);
+    let avg = [0.5, 0.5];
+    assert!(bits_eq(iw.get_duration(), if ok && which == 0 { &w } else { &avg }));
+    assert!(bits_eq(iw.get_parameter(1), if ok && which == 1 { &w } else { &avg }));
+    assert!(bits_eq(iw.get_gv(0), if ok && which == 2 { &w } else { &avg }));
+    assert!(bits_eq(iw.get_parameter(0), &avg) && bits_eq(iw.get_gv(1), &avg));
+    kani::cover!(ok && which == 1);
 }
